@@ -363,7 +363,7 @@ func init() {
 		}
 		n := 6000
 		if thorough() {
-			n = 60000
+			n = 300000
 		}
 		var jobs []func()
 		for i := 0; i < n; i++ {
